@@ -174,6 +174,10 @@ def session_jobs(scale=1.0):
             workers=(3, 3), cases=c(60, 6000), time_s=(45, 800), args={"repeat-bias": True, "no-global": True}, **FULL),
         Job("sess-prod-x1m-c16", engine="session", profile="prodlike", env=senv(65536, 1048576, 16),
             workers=(3, 3), cases=c(6, 600), time_s=(45, 800), args={"max-file-bytes": 3000000, "max-files": 4, "max-sessions": 3}, **FULL),
+        # full default limits (64 KiB chunks, 64 MiB / 8192-chunk xorbs): a few large files, thorough tier only
+        Job("sess-prod-defaults-big", engine="session", profile="prodlike", env=senv(65536, 64 * 1024 * 1024, 8192),
+            workers=(2, 2), cases=c(2, 3), time_s=(45, 900), args={"max-file-bytes": 140000000, "min-file-bytes": 60000000, "max-files": 2, "max-sessions": 2, "no-interleave": True},
+            tiers=("thorough",), **FULL),
     ]
 
 
